@@ -82,6 +82,9 @@ func typeName(t types.Type) string {
 		}
 		pk += "."
 	}
+	if a, ok := typeAlias[pk+n.Obj().Name()]; ok {
+		return star + a
+	}
 	return star + pk + n.Obj().Name()
 }
 
@@ -883,6 +886,9 @@ func retOperand(ret *ssa.Return, idx int) ssa.Value {
 	if !ok {
 		return v
 	}
+	if cellWrittenByClosure(a) {
+		return v // a (deferred) closure may replace the result after the store: only the path facts know the final value
+	}
 	// the closest preceding store to the cell in the same block, else the unique store
 	b := ret.Block()
 	var last ssa.Value
@@ -998,6 +1004,39 @@ func provablyNonNil(fn *ssa.Function, v ssa.Value, at ssa.Instruction) bool {
 			}
 		}
 		return true
+	}
+	return false
+}
+
+// cellWrittenByClosure reports whether a closure created in the cell's function stores into the cell.
+func cellWrittenByClosure(a *ssa.Alloc) bool {
+	refs := a.Referrers()
+	if refs == nil {
+		return false
+	}
+	for _, rf := range *refs {
+		mc, ok := rf.(*ssa.MakeClosure)
+		if !ok {
+			continue
+		}
+		fn, ok := mc.Fn.(*ssa.Function)
+		if !ok {
+			continue
+		}
+		for i, b := range mc.Bindings {
+			if b != ssa.Value(a) || i >= len(fn.FreeVars) {
+				continue
+			}
+			fv := fn.FreeVars[i]
+			if fv.Referrers() == nil {
+				continue
+			}
+			for _, u := range *fv.Referrers() {
+				if st, ok := u.(*ssa.Store); ok && st.Addr == ssa.Value(fv) {
+					return true
+				}
+			}
+		}
 	}
 	return false
 }
